@@ -29,11 +29,12 @@ TARGETS = ['PyTough.Props.C14', 'drv_c14']
 THEOREMS = ['Props.C14.' + t for t in [
     'power_chains_wf', 'power_array_eq_zpow', 'indices_defined',
     'single_potential_r1', 'single_potential_r2', 'single_potential_r3', 'density_monotone_r2_partial',
+    'density_monotone_r1_partial', 'density_monotone_region1_partial', 'compressibility_pos_r1_partial',
     'region_classifier_one', 'region_classifier_two', 'region_classifier_three', 'region_classifier_none',
     'region_classifier_total', 'region_equation_valid',
     'sat_root', 'tsat_root', 'sat_tsat_inverse_on', 'tsat_sat_inverse_on', 'sat_tsat_inverse_partial', 'tsat_sat_inverse_partial', 'tsat_outside_range', 'sat_tsat_critical_end', 'visc_pos', 'b23_near_inverse', 'b23_near_inverse_p',
 ]]
-LEVEL_TEXT = ('Proof (partial): 24 Lean theorems about definitions regenerated from IAPWS97.py on every run, over the reals: all ten '
+LEVEL_TEXT = ('Proof (partial): 27 Lean theorems about definitions regenerated from IAPWS97.py on every run, over the reals: all ten '
               'power_array chains well formed and computing v^k (decide + induction); every index read by the sums is defined; the values of '
               'cowat / supst / super are the partial derivatives of ONE potential each (Gibbs regions 1, 2, Helmholtz region 3) at every state '
               'of 0..350 degC x <=100 MPa, 0..800 degC x (0,100 MPa], every density and t>=0 (HasDerivAt, no sorry); the region classifier '
@@ -42,7 +43,7 @@ LEVEL_TEXT = ('Proof (partial): 24 Lean theorems about definitions regenerated f
               'no further hypothesis (85-piece interval cover of the saturation line + intermediate value theorem); on the last 0.046 K the '
               '_partial versions carry the branch inequalities as hypotheses; the critical-end failure of the inverse is PROVED '
               '(sat(tcritical) > pcritical in exact arithmetic); visc > 0 for every density and t >= 0; b23t(b23p t) - t in [0, 1e-9] K and |b23p(b23t p) - p| <= 1e-4 Pa on '
-              '350..590 degC.  density strictly increasing in pressure is PROVED for region 2 on six boxes up to 10 MPa (_partial).  NOT proved, sampled by the oracle only: density monotone in pressure elsewhere (rest of region 2, regions 1 and 3), agreement across region boundaries '
+              '350..590 degC.  density strictly increasing in pressure is PROVED for region 2 on six boxes up to 10 MPa (_partial).  Region 1 (cowat): density positive and strictly increasing in pressure is PROVED on sixteen boxes (density_monotone_r1_partial): every pressure 0..100 MPa for 0 <= t <= 230 degC; for five slabs between 230 and 250 degC from a limit (2.0, 2.5, 3.0, 3.0, 3.3 MPa) PROVED to lie below the saturation pressure on the whole slab (interval enclosure of sat) up to 100 MPa (pressure intervals chained); and for each 10-degree slab from 250 to 350 degC from a stated lower pressure (14.5 MPa at 250-260 ... 50 MPa at 340-350 degC) up to 100 MPa (termwise corner bounds of gamma_pi and of its difference quotient over the generated 34-row table, norm_num).  Hence for any two states the classifier puts in region 1 at t <= 250 degC the density is strictly larger at the higher pressure, with no box hypothesis (density_monotone_region1_partial; non-vacuity shown on concrete classified states at 100 and 248 degC).  In the conventional derivative form, the isothermal compressibility (1/rho)(d rho/d p)_T of the density cowat returns is PROVED positive (HasDerivAt) on fourteen region-1 boxes: 0..230 degC x 0..100 MPa, 230-240 from 4 MPa, 240-250 from 9.5 MPa and the same ten hot slabs (compressibility_pos_r1_partial).  NOT proved, sampled by the oracle only: density monotone in pressure in region 1 above 250 degC between the saturation pressure and the stated lower limits (the terms I=29..32 cancel there and termwise bounds fail even on tiny boxes), in the rest of region 2 and in region 3; agreement across region boundaries '
               'within the IAPWS-IF97 tolerances.  Tie: AST translator + bit-for-bit Float validation '
               '(16k requests / seed, 0 disagreements) + power_array vs hand model.')
 LEVEL_NOTE = ('Trusted: Lean kernel (+propext, Classical.choice, Quot.sound); the translator for the step Float tree -> real tree (the same '
